@@ -1,4 +1,5 @@
 SPECIFICATION Spec
+CONSTANT IdleBypassBug = FALSE
 CONSTANT StatusRewrapBug = FALSE
 INVARIANT InvMechanismIsPolicy
 CHECK_DEADLOCK FALSE
